@@ -29,7 +29,7 @@ RULE = ('Inputs: the tier-0/tier-1 structures of the repository\'s test data (mi
         'within residues (random and reversed), hydrogens renamed (PDB-style rotation and arbitrary names), rigid motion, '
         'and another hash seed. Non-trivial pair = the presentation really changed atom order / names / frame (recorded by '
         'the wrapper) and the reference topology has >= 1 inter-residue interaction. distinct = distinct (input, options, '
-        'presentation) triples. Also: Go-model option sets (presented permuted, H-renamed, hash-seeded and translated, never rotated), requested terminal modifications (caps, neutral termini); a reference run that fails is retried under six other hash seeds.')
+        'presentation) triples. Also: Go-model option sets (presented permuted, H-renamed, hash-seeded and translated, never rotated), requested terminal modifications (caps, neutral termini); a reference run that fails is retried under six other hash seeds; the structure handed over as a .gro file; hydrogens renamed in the input file itself (old PDB style 1HB, arbitrary).')
 ASSUMPTIONS = ['numeric parameters are compared as printed with tolerance 1e-4 relative + 2e-5 absolute (geometry-derived values '
                'are printed with 5 decimals and may flip their last digit); dihedral angles of +-180 are identified',
                'an elastic bond whose length is within 2e-5 nm of the upper cut-off may be present in one run only '
@@ -62,7 +62,9 @@ OPTION_SETS = [
     ['-ff', 'martini3001', '-go', '-go-eps', '12', '-go-res-dist', '4', '-water-bias', '-water-bias-eps', 'H:3.6', 'C:2.1', '-ss', 'H'],
 ]
 PRESENTATIONS = [('permute', {'pstyle': 'random'}), ('permute', {'pstyle': 'reverse'}), ('rename-h', {'hstyle': 'pdb-rotation'}),
-                 ('rename-h', {'hstyle': 'arbitrary'}), ('rigid', {}), ('hashseed', {}), ('translate-file', {})]
+                 ('rename-h', {'hstyle': 'arbitrary'}), ('rigid', {}), ('hashseed', {}), ('translate-file', {}),
+                 ('rename-h-file', {'hstyle': 'pdb-rotation'}), ('rename-h-file', {'hstyle': 'arbitrary'}),
+                 ('rename-h', {'hstyle': 'arbitrary-reversed'})]
 
 
 def run_cli(pdb, options, presentation, extra, pseed, hashseed, workdir):
@@ -270,6 +272,95 @@ def moved_residues(ref, other):
     return out, ordinals, len(seen)
 
 
+def nterminal_particles(out):
+    """Per molecule of the written coordinate file: local (1-based) indices of the particles of the first residue of every chain
+    stretch.  -> (set of global particle indices, {moltype: set of local indices})"""
+    glob, local = set(), {}
+    seq = [n for n, c in out['top']['molecules'] for _ in range(c)]
+    for mi, idxs in enumerate(out['pdb']['molecules']):
+        name = seq[mi] if mi < len(seq) else None
+        prev_chain, first_res = object(), None
+        for k, ai in enumerate(idxs, 1):
+            a = out['pdb']['atoms'][ai]
+            if a['chain'] != prev_chain:
+                prev_chain, first_res = a['chain'], (a['resid'], a['resname'])
+            if (a['resid'], a['resname']) == first_res:
+                glob.add(ai)
+                local.setdefault(name, set()).add(k)
+            else:
+                first_res = None
+    return glob, local
+
+
+def explained_by_neutral_nterminus(ref, other, options):
+    """Is every difference between the two runs confined to what follows from WHICH of the equivalent hydrogens of a charged
+    N-terminus was discarded for the requested neutral terminus?  That is: same molecules, same atoms; only particles of
+    N-terminal residues displaced, by at most 0.1 A; only two-body interactions (elastic bonds, constraints) that involve such a
+    particle differ, in their length by at most 0.005 nm (and, for distance-dependent force constants, by at most 5 %)."""
+    opts = list(options)
+    neutral = '-nt' in opts or any(o == '-nter' and opts[i + 1] == 'NH2-ter' for i, o in enumerate(opts[:-1]))
+    if not neutral:
+        return False, {}
+    if ref['top']['molecules'] != other['top']['molecules'] or len(ref['pdb']['atoms']) != len(other['pdb']['atoms']):
+        return False, {}
+    glob, local = nterminal_particles(ref)
+    displaced = []
+    for i, (a, c) in enumerate(zip(ref['pdb']['atoms'], other['pdb']['atoms'])):
+        if (a['name'], a['resname'], a['resid'], a['chain']) != (c['name'], c['resname'], c['resid'], c['chain']):
+            return False, {}
+        dev = max(abs(a[k] - c[k]) for k in 'xyz')
+        if not dev <= 2.5e-3:
+            if i not in glob or not dev <= 0.1:
+                return False, {}
+            displaced.append([a['name'], a['resname'], a['resid'], round(dev, 4)])
+    if not displaced:
+        return False, {}
+    nrows = 0
+    for n, r in ref['itps'].items():
+        o = other['itps'].get(n)
+        if o is None or r['atoms'] != o['atoms'] or r['nrexcl'] != o['nrexcl']:
+            return False, {}
+        nt = {str(k) for k in local.get(n, ())}
+        for sname in set(r['sections']) | set(o['sections']):
+            a = [(list(t), g) for t, g, _ in r['sections'].get(sname, [])]
+            c = [(list(t), g) for t, g, _ in o['sections'].get(sname, [])]
+            rest = list(c)
+            unmatched = []
+            for row in a:
+                hit = next((j for j, row2 in enumerate(rest) if row[1] == row2[1] and tokens_equal(row[0], row2[0], False)), None)
+                if hit is None:
+                    unmatched.append(row)
+                else:
+                    del rest[hit]
+            if not unmatched and not rest:
+                continue
+            if sname not in ('bonds', 'constraints') or len(unmatched) != len(rest):
+                return False, {}
+            for toks, g in unmatched:
+                if len(toks) < 4 or not (toks[0] in nt or toks[1] in nt):
+                    return False, {}
+                hit = None
+                for j, (t2, g2) in enumerate(rest):
+                    if g2 != g or len(t2) != len(toks) or t2[:3] != toks[:3]:
+                        continue
+                    la, lb = num(toks[3]), num(t2[3])
+                    if la is None or lb is None or abs(la - lb) > 0.005:
+                        continue
+                    ok = True
+                    for x, y in zip(toks[4:], t2[4:]):
+                        fx, fy = num(x), num(y)
+                        if x != y and (fx is None or fy is None or abs(fx - fy) > 0.05 * max(abs(fx), abs(fy))):
+                            ok = False
+                    if ok:
+                        hit = j
+                        break
+                if hit is None:
+                    return False, {}
+                del rest[hit]
+                nrows += 1
+    return True, {'displaced_particles': displaced, 'interactions_with_changed_length': nrows}
+
+
 def cases(tier, seed):
     rnd = harness.rng('C11plan', seed)
     out = []
@@ -295,7 +386,7 @@ def cases(tier, seed):
             # every quick group presents one atom order, one of (hydrogen names | rigid motion) and one hash seed
             pres = [('permute', {'pstyle': 'reverse' if g % 2 else 'random'}),
                     [('rename-h', {'hstyle': 'pdb-rotation'}), ('rigid', {}), ('rename-h', {'hstyle': 'arbitrary'}),
-                     ('translate-file', {})][(g + seed) % 4],
+                     ('translate-file', {}), ('rename-h', {'hstyle': 'arbitrary-reversed'})][(g + seed) % 5],
                     ('hashseed', {})]
         if '-go' in options:
             # the Go contact map places a fixed-frame point set on every atom: it is translation- but not rotation-invariant by
@@ -311,8 +402,18 @@ def cases(tier, seed):
                 else ['-ff', 'martini3001', '-elastic', '-p', 'backbone']
             out.append({'pdb': INPUTS_QUICK[seed % 3], 'options': options, 'presentations': pres, 'pseed': rnd.randrange(10 ** 6),
                         'hashseed': rnd.choice([1, 2, 3, 12345]), 'split_first_residue': True})
-        out.append({'pdb': pdb, 'options': options, 'presentations': pres, 'pseed': rnd.randrange(10 ** 6),
-                    'hashseed': rnd.choice([1, 2, 3, 12345])})
+        grp = {'pdb': pdb, 'options': options, 'presentations': pres, 'pseed': rnd.randrange(10 ** 6),
+               'hashseed': rnd.choice([1, 2, 3, 12345])}
+        if (tier == 'quick' and g == 1) or (tier != 'quick' and rnd.random() < 0.15):
+            # the structure is handed over as a .gro file (no element column: the reader derives elements from the names it sees);
+            # file-level presentations that edit PDB columns are replaced by the file-level hydrogen renamings
+            grp['gro'] = True
+            ren = [('rename-h-file', {'hstyle': 'pdb-rotation'}), ('rename-h-file', {'hstyle': 'arbitrary'})]
+            grp['presentations'] = [p_ for p_ in pres if p_[0] not in ('translate-file', 'reverse-file', 'rename-h-file')][:max(1, len(pres) - 2)] + \
+                (ren if tier != 'quick' else ren[:1])
+        elif tier == 'quick' and g == 2:
+            grp['presentations'] = pres[:2] + [('rename-h-file', {'hstyle': 'pdb-rotation'})]
+        out.append(grp)
     return out
 
 
@@ -362,6 +463,79 @@ def reverse_residues_in_file(src, dst):
         f.writelines(out)
 
 
+def pdb_to_gro(src, dst):
+    """The same structure as a GROMACS .gro file (own writer): same atoms in the same order, names, residue names and numbers;
+    coordinates in nm with four decimals, i.e. exactly the thousandths of an Angstrom of the PDB file. A .gro file has no chain
+    identifiers, no element column and no alternate locations (only the first location of an atom is kept)."""
+    rows = []
+    seen = set()
+    with open(src) as f:
+        for l in f:
+            if l.startswith(('ATOM', 'HETATM')):
+                if l[16] not in ' A':
+                    continue
+                rows.append((int(l[22:26]), l[17:21].strip(), l[12:16].strip(), [float(l[30 + 8 * i:38 + 8 * i]) / 10.0 for i in range(3)]))
+            elif l.startswith('ENDMDL'):
+                break
+    with open(dst, 'w') as g:
+        g.write('converted by the C11 check\n%d\n' % len(rows))
+        for i, (resid, resname, name, xyz) in enumerate(rows, 1):
+            g.write('%5d%-5s%5s%5d%9.4f%9.4f%9.4f\n' % (resid % 100000, resname[:5], name[:5], i % 100000, xyz[0], xyz[1], xyz[2]))
+        g.write('  20.00000  20.00000  20.00000\n')
+
+
+def _h_style(name, hstyle, counter):
+    if hstyle == 'arbitrary':
+        counter[0] += 1
+        return 'HX%d' % counter[0]
+    # old PDB style: the trailing digit is written first (HB1 -> 1HB, HH11 -> 1HH1)
+    return name[-1] + name[:-1] if len(name) > 1 and name[-1].isdigit() else name
+
+
+def rename_hydrogens_in_file(src, dst, hstyle):
+    """Hydrogen names rewritten in the input FILE (the reader sees the new names; what it derives from a name, such as the element
+    when the format has no element column, is derived from the new name)."""
+    out = []
+    changed = 0
+    with open(src) as f:
+        lines = f.readlines()
+    if src.endswith('.gro'):
+        natoms = int(lines[1])
+        out = lines[:2]
+        cur, counter = None, [0]
+        for l in lines[2:2 + natoms]:
+            name = l[10:15].strip()
+            key = l[0:10]
+            if key != cur:
+                cur, counter = key, [0]
+            stripped = name.lstrip('0123456789')
+            if stripped[:1] == 'H':
+                new = _h_style(name, hstyle, counter)
+                changed += int(new != name)
+                l = l[:10] + '%5s' % new[:5] + l[15:]
+            out.append(l)
+        out += lines[2 + natoms:]
+    else:
+        cur, counter = None, [0]
+        for l in lines:
+            if l.startswith(('ATOM', 'HETATM')):
+                key = (l[21], l[22:27])
+                if key != cur:
+                    cur, counter = key, [0]
+                name = l[12:16].strip()
+                element = l[76:78].strip().upper() if len(l) > 77 else ''
+                is_h = element == 'H' if element else name.lstrip('0123456789')[:1] == 'H'
+                if is_h:
+                    new = _h_style(name, hstyle, counter)
+                    changed += int(new != name)
+                    field = new[:4] if len(new) >= 4 or new[0].isdigit() else ' ' + new
+                    l = l[:12] + '%-4s' % field + l[16:]
+            out.append(l)
+    with open(dst, 'w') as f:
+        f.writelines(out)
+    return changed
+
+
 def run_case(params):
     b = harness.Batch()
     base = tempfile.mkdtemp(prefix='c11-')
@@ -369,6 +543,11 @@ def run_case(params):
     if params.get('split_first_residue'):
         split_first_residue(pdb, os.path.join(base, 'split.pdb'))
         pdb = os.path.join(base, 'split.pdb')
+    orig_pdb = pdb
+    if params.get('gro'):
+        # the same structure handed over as a .gro file: reference and presentations all start from it
+        pdb_to_gro(pdb, os.path.join(base, 'input.gro'))
+        pdb = os.path.join(base, 'input.gro')
     try:
         ref_dir = os.path.join(base, 'ref')
         r = run_cli(pdb, params['options'], 'reference', {}, 0, 0, ref_dir)
@@ -410,6 +589,11 @@ def run_case(params):
                             l = l[:30] + ''.join('%8.3f' % v for v in xyz) + l[54:]
                         g.write(l)
                 r2 = run_cli(moved_pdb, params['options'], 'reference', {}, params['pseed'], hs, d)
+            elif kind == 'rename-h-file':
+                os.makedirs(d, exist_ok=True)
+                ren = os.path.join(d, 'renamed' + os.path.splitext(pdb)[1])
+                n_renamed = rename_hydrogens_in_file(pdb, ren, extra.get('hstyle', 'pdb-rotation'))
+                r2 = run_cli(ren, params['options'], 'reference', {}, params['pseed'], hs, d)
             elif kind == 'reverse-file':
                 os.makedirs(d, exist_ok=True)
                 rev_pdb = os.path.join(d, 'reversed.pdb')
@@ -428,18 +612,20 @@ def run_case(params):
             record = (other['presentation']['records'] or [{}])[0]
             if kind == 'reverse-file':
                 record = {'order_changed': True}
+            if kind == 'rename-h-file':
+                record = {'names_changed': n_renamed}
             if kind == 'translate-file':
                 record = {'moved': True, 'R': [[1, 0, 0], [0, 1, 0], [0, 0, 1]], 't': [x / 10.0 for x in shift]}
             b.hits += 1
             p, adm = compare(ref, other, exact=(kind == 'hashseed'), upper=upper)
             if not p:
                 p = compare_coordinates(ref, other, record)
-            if p and kind == 'rename-h' and p[0] == 'pdb/coordinates-not-co-moving':
+            if p and kind in ('rename-h', 'rename-h-file') and p[0] == 'pdb/coordinates-not-co-moving':
                 # classify by mechanism: are all displaced particles in residues holding a hydrogen that the distance rule
                 # bonds to two heavy atoms?  (particle records carry the input residue numbers only with -resid input or
                 # when numbering starts at 1; otherwise the residues simply do not match and the violation stays unclassified)
                 moved, ordinals, nres = moved_residues(ref, other)
-                suspects = overbonded_hydrogen_residues(pdb)
+                suspects = overbonded_hydrogen_residues(orig_pdb)
                 if ('#n', nres) in suspects:      # one output residue per input residue: match them by position in the file
                     explained = bool(ordinals) and all(('#', i) in suspects for i in ordinals)
                 else:
@@ -450,6 +636,14 @@ def run_case(params):
                                 'a hydrogen whose name the force field does not know is bonded by distance to two heavy atoms, '
                                 'dropped and rebuilt without coordinates: particle positions depend on hydrogen names',
                                 dict(desc, detail=p[1], displaced_residues=sorted(moved), residues_with_such_hydrogens=sorted(suspects)))
+                    continue
+            if p and kind in ('rename-h', 'rename-h-file'):
+                ok_, info_ = explained_by_neutral_nterminus(ref, other, params['options'])
+                if ok_:
+                    b.violation('rename-h/neutral-n-terminus-discards-a-name-dependent-hydrogen',
+                                'a neutral N-terminus is requested for a structure whose N-terminus carries three hydrogens: which of the '
+                                'three equivalent hydrogens is discarded follows their names, and the terminal particle moves with it',
+                                dict(desc, detail=p[1], **info_))
                     continue
             if p:
                 b.violation('%s/%s' % (kind, p[0]), 'topology depends on the presentation (%s: %s)' % (kind, p[0]), dict(desc, detail=p[1]))
